@@ -1545,6 +1545,24 @@ func (s *Store) deleteValue(key []byte) error {
 	return err
 }
 
+// deleteValueAndStoreObject deletes key and stores data as object id in collection, atomically
+func (s *Store) deleteValueAndStoreObject(key []byte, collection CollectionIndex, id string, data interface{}) error {
+	b, err := json.Marshal(data)
+	if err != nil {
+		s.logger.Error(err)
+		return err
+	}
+	indexBytes := make([]byte, 2)
+	binary.BigEndian.PutUint16(indexBytes, uint16(collection))
+	objectKey := append(indexBytes, []byte("::"+id)...)
+	return s.database.Update(func(txn *badger.Txn) error {
+		if err := txn.Delete(key); err != nil {
+			return err
+		}
+		return txn.Set(objectKey, b)
+	})
+}
+
 func (s *Store) moveValue(oldKey, newKey, newValue []byte) error {
 	tags := []string{
 		"application:datahub",
